@@ -179,11 +179,20 @@ def run_check(prop, tier):
             os.remove(os.path.join(rdir, f))
     for rule, vs in sorted(by_rule.items()):
         confirmed_new = 0
-        for v in vs[:6]:
-            if confirmed_new >= 1:
+        confirmed_known = set()
+        tried = 0
+        for v in vs:
+            if confirmed_new >= 1 or tried >= 6:
                 break
             scn = v["scenario"]
             viol = v["violation"]
+            # a run whose un-minimised violation already matches a known finding
+            # that has been confirmed (minimised + replayed) in this batch is counted, not re-minimised
+            k0 = match_known(mod, prop, viol, scn) if scn is not None else None
+            if k0 is not None and k0["id"] in confirmed_known:
+                known_hits[k0["id"]] = (k0, known_hits[k0["id"]][1] + 1)
+                continue
+            tried += 1
             used = 0
             if scn is not None:
                 scn = mod.prepare_replay(scn, viol) if hasattr(mod, "prepare_replay") else scn
@@ -213,6 +222,7 @@ def run_check(prop, tier):
                     continue
             k = match_known(mod, prop, viol, scn)
             if k is not None:
+                confirmed_known.add(k["id"])
                 known_hits.setdefault(k["id"], (k, 0))
                 known_hits[k["id"]] = (k, known_hits[k["id"]][1] + 1)
                 continue
